@@ -26,6 +26,7 @@ LIST_ATTRS = ("bounds", "climatology", "coordinates", "ancillary_variables", "ge
               "node_coordinates", "node_count", "part_node_count", "interior_ring", "nodes")
 MAP_ATTRS = ("cell_measures", "formula_terms", "grid_mapping")
 DIM_ATTRS = ("compress", "sample_dimension", "instance_dimension")
+GEOM_ATTRS = ("node_coordinates", "node_count", "part_node_count", "interior_ring")
 MISSING = "nope_missing"
 FOREIGN = ("zz_foreign1", "zz_foreign2")
 
@@ -43,8 +44,13 @@ MALFORMED = {
 }
 # templates using the data variable's own dimension names ({d0} first, {dl} last)
 MALFORMED_T = {
-    "cell_methods": ["{dl}: maximum within days", "{d0}: mean over years", "{d0}: {dl}: mean (interval: 1 m interval: 2 m interval: 3 m)",
+    "cell_methods": ["{d0}: {dl}: mean (interval: 1 m interval: 2 m interval: 3 m)",
                      "{d0}: mean (interval: 1 hour", "{dl}: mean where"],
+}
+# well-formed strings that name a non-time axis as climatological: the construct container
+# (cfdm/constructs.py _set_climatology), not the reader, rejects them
+SEMANTIC_T = {
+    "cell_methods": ["{dl}: maximum within days", "{d0}: mean over years"],
 }
 
 
@@ -129,11 +135,13 @@ def enumerate_faults(base, rng, tier):
             if attr in MALFORMED or attr == "cell_methods":
                 tmpl = [t.format(d0=(var["dims"] or ["x"])[0], dl=(var["dims"] or ["x"])[-1])
                         for t in MALFORMED_T.get(attr, [])]
-                for s in MALFORMED.get(attr, []) + tmpl:
+                sem = [t.format(d0=(var["dims"] or ["x"])[0], dl=(var["dims"] or ["x"])[-1])
+                       for t in SEMANTIC_T.get(attr, [])]
+                for s in MALFORMED.get(attr, []) + tmpl + sem:
                     out.append({
                         "base": base["id"], "foreign": False, "edits": [[var["name"], attr, s]],
-                        "meta": {"var": var["name"], "attr": attr, "kind": "malformed", "tok": None,
-                                 "old": None, "new": None, "role": None, "value": s, "orig": value}})
+                        "meta": {"var": var["name"], "attr": attr, "kind": "semantic" if s in sem else "malformed",
+                                 "tok": None, "old": None, "new": None, "role": None, "value": s, "orig": value}})
     return out
 
 
@@ -171,6 +179,8 @@ def dangling_key(value):
 def effective_kind(meta):
     """'removed' that leaves a key of a mapping attribute without value is a malformed string."""
     if meta["kind"] == "removed" and meta["attr"] in MAP_ATTRS and dangling_key(meta["value"]):
+        return "malformed"
+    if meta["kind"] == "semantic":
         return "malformed"
     return meta["kind"]
 
@@ -226,8 +236,10 @@ def construct_role(bc, meta, bf):
         if has_formula_terms(bf, v):
             return "owner" if bc["ncvar"] == old else "sibling"
         return "none"
-    if attr in ("node_coordinates", "node_count", "part_node_count", "interior_ring"):
-        return "bounds" if t == "auxiliary_coordinate" else "none"
+    if attr in GEOM_ATTRS:
+        if t == "auxiliary_coordinate":
+            return "owner" if bc["ncvar"] is None else "bounds"
+        return "none"
     return "none"
 
 
@@ -539,19 +551,263 @@ def g_case(raw, rd):
     if rd["exc"] is not None:
         if rd["exc"].startswith("OBS:"):
             return None
-        return f"({g_ads(raw)}, Some {ERRK.get(rd['exc'], 'OtherErr')}, [])"
+        return f"(({g_ads(raw)}, Some {ERRK.get(rd['exc'], 'OtherErr')}, []) : case)"
     fs = []
     for f in rd["fields"]:
         g = g_field(f)
         if g is None:
             return None
         fs.append(g)
-    return f"({g_ads(raw)}, None, [{'; '.join(fs)}])"
+    return f"(({g_ads(raw)}, None, [{'; '.join(fs)}]) : case)"
+
+
+def signature(sig, meta):
+    """Stable class of a failure (what known_findings matches)."""
+    parts = sig.split(":")
+    if parts[0] == "sibling-dropped":
+        return "sibling-dropped:" + parts[1]
+    if parts[0] in ("read-raises", "read-crashes") and meta["attr"] in GEOM_ATTRS + ("geometry",):
+        return parts[0] + ":geometry-container"
+    return sig
+
+
+TOKENS = {
+    "cell_methods": ["time:", "area:", "{d0}:", "{dl}:", "mean", "maximum", "where", "land", "(", ")", "interval:",
+                     "comment:", "1", "0.5", "hour", "(interval:", "m)", "x", "(a", "b)"],
+    "cell_measures": ["area:", "volume:", "cell_measure", "{d0}", "nope_missing", "a.b", "area", ":"],
+    "formula_terms": ["a:", "b:", "orog:", "b", "surface_altitude", "nope_missing", "{d0}", "a", "x-y"],
+    "grid_mapping": ["rotated_latitude_longitude", "rotated_latitude_longitude:", "{d0}", "{dl}", "nope_missing",
+                     "nope_missing:", "latitude_1", "crs:"],
+}
+
+
+def random_string_faults(base, rng, n):
+    """Seeded random attribute strings over the vocabulary of each parser."""
+    out = []
+    sites = [(v, a) for v in base["raw"]["vars"] for a in v["attrs"] if a in TOKENS and v["attrs"][a] is not None]
+    if not sites:
+        return out
+    for _ in range(n):
+        var, attr = rng.choice(sites)
+        d0, dl = (var["dims"] or ["x"])[0], (var["dims"] or ["x"])[-1]
+        k = rng.choice([1, 2, 2, 3, 3, 4, 5, 6, 8])
+        toks = [rng.choice(TOKENS[attr]).format(d0=d0, dl=dl) for _ in range(k)]
+        sval = " ".join(toks)
+        if rng.random() < 0.1:
+            sval = " " + sval
+        if rng.random() < 0.1:
+            sval = sval + " "
+        out.append({"base": base["id"], "foreign": False, "edits": [[var["name"], attr, sval]],
+                    "meta": {"var": var["name"], "attr": attr, "kind": "random", "tok": None, "old": None,
+                             "new": None, "role": None, "value": sval, "orig": var["attrs"][attr]}})
+    return out
+
+
+def double_faults(singles, rng, n):
+    out = []
+    by_base = {}
+    for c in singles:
+        if c["meta"]["kind"] in ("missing", "foreign", "removed", "malformed"):
+            by_base.setdefault(c["base"], []).append(c)
+    keys = sorted(by_base)
+    for _ in range(n):
+        b = rng.choice(keys)
+        c1, c2 = rng.sample(by_base[b], 2)
+        if c1["edits"][0][:2] == c2["edits"][0][:2]:
+            continue
+        out.append({"base": b, "foreign": c1["foreign"] or c2["foreign"], "edits": c1["edits"] + c2["edits"],
+                    "meta": {"var": c1["meta"]["var"], "attr": c1["meta"]["attr"] + "+" + c2["meta"]["attr"],
+                             "kind": "double", "tok": None, "old": None, "new": None, "role": None,
+                             "value": f"{c1['meta']['value']} / {c2['meta']['value']}", "orig": None}})
+    return out
+
+
+def weak_oracle(case, base, row):
+    """For double faults and random strings: no exception, nothing left open, every field still
+    returned with its data."""
+    cls = attr_class(case["meta"]) if case["meta"]["kind"] == "random" else "double-fault"
+    if "crash" in row:
+        return [(f"read-crashes:{cls}", f"the process reading the file was killed by signal {row['crash']}")]
+    rd = row.get("read")
+    if rd is None:
+        return [("harness:" + cls, "the faulted file could not be produced: " + str(row.get("error")))]
+    fails = []
+    if rd.get("open_fds"):
+        fails.append(("file-left-open", f"{rd['open_fds']} descriptor(s) still open"))
+    if rd["exc"] is not None:
+        fails.append((f"read-raises:{cls}", f"cfdm.read raised {rd['exc']}: {rd['msg']} at {rd.get('where')}"))
+        return fails
+    rfields = {f["ncvar"]: f for f in rd["fields"] if not f.get("extra")}
+    for bf in base["read"]["fields"]:
+        rf = rfields.get(bf["ncvar"])
+        if rf is None:
+            fails.append((f"field-lost:{cls}", f"no field for data variable {bf['ncvar']} is returned"))
+        elif not any(a in case["meta"]["attr"] for a in DIM_ATTRS + ("geometry",)) and rf["data"] != bf["data"]:
+            fails.append((f"field-data-changed:{cls}", f"data of {bf['ncvar']}: {bf['data']} -> {rf['data']}"))
+    return fails
+
+
+QUICK_BASES = ("e0", "e1", "e1v", "e1g", "e2c", "e0x", "e7v", "e6", "e3c", "e4ic")
+CORPUS = [
+    # minimised earlier failures (ids as in the report): they run first
+    {"base": "e1", "foreign": False, "edits": [["atmosphere_hybrid_height_coordinate", "bounds", "nope_missing"]],
+     "meta": {"var": "atmosphere_hybrid_height_coordinate", "attr": "bounds", "kind": "missing", "tok": 0,
+              "old": "atmosphere_hybrid_height_coordinate_bounds", "new": "nope_missing", "role": "name",
+              "value": "nope_missing", "orig": "atmosphere_hybrid_height_coordinate_bounds", "corpus": "F13a"}},
+    {"base": "e1", "foreign": False,
+     "edits": [["atmosphere_hybrid_height_coordinate", "formula_terms", "a: atmosphere_hybrid_height_coordinate b: nope_missing orog: surface_altitude"]],
+     "meta": {"var": "atmosphere_hybrid_height_coordinate", "attr": "formula_terms", "kind": "missing", "tok": 3,
+              "old": "b", "new": "nope_missing", "role": "name",
+              "value": "a: atmosphere_hybrid_height_coordinate b: nope_missing orog: surface_altitude",
+              "orig": "a: atmosphere_hybrid_height_coordinate b: b orog: surface_altitude", "corpus": "F13b"}},
+    {"base": "e0", "foreign": False, "edits": [["q", "cell_methods", "time: mean (interval: 0.1 nope_missing"]],
+     "meta": {"var": "q", "attr": "cell_methods", "kind": "malformed", "tok": None, "old": None, "new": None,
+              "role": None, "value": "time: mean (interval: 0.1 nope_missing", "orig": "area: mean", "corpus": "F13c"}},
+    {"base": "e7v", "foreign": False, "edits": [["latitude", "bounds", "nope_missing"]],
+     "meta": {"var": "latitude", "attr": "bounds", "kind": "missing", "tok": 0, "old": "latitude_bounds",
+              "new": "nope_missing", "role": "name", "value": "nope_missing", "orig": "latitude_bounds",
+              "corpus": "F13d"}},
+    {"base": "e0", "foreign": False, "edits": [["time", "formula_terms", "a: lat"]],
+     "meta": {"var": "time", "attr": "formula_terms", "kind": "random", "tok": None, "old": None, "new": None,
+              "role": None, "value": "a: lat", "orig": None, "corpus": "F13f"}},
+]
 
 
 def run(chk, model_ok):
-    raise NotImplementedError
+    rng = chk.rng
+    thorough = chk.tier == "thorough"
+    bases = make_bases(chk)
+    use = sorted(bases) if thorough else [b for b in QUICK_BASES if b in bases]
+    singles = []
+    for b in use:
+        singles += enumerate_faults(bases[b], rng, chk.tier)
+    randoms = []
+    for b in use:
+        randoms += random_string_faults(bases[b], rng, 120 if thorough else 18)
+    doubles = double_faults(singles, rng, 1200 if thorough else 90)
+    corpus = [c for c in CORPUS if c["base"] in bases]
+    cases = corpus + singles + randoms + doubles
+    rows, crashed = run_cases(chk, cases, bases, nworkers=14)
+    for w, rc, err in crashed:
+        chk.fail("correspondence", "worker-crash", f"C13 worker {w} ended with rc={rc}: {err}",
+                 {"correspondence": "drive/c13.py"})
+
+    # ---- property oracle on the implementation
+    explained = set()
+    counts = {"kinds": {}, "attrs": {}, "exceptions": {}, "reported": 0, "extra_fields": 0, "failures": {}}
+    for c in cases:
+        r = rows.get(c["cid"])
+        meta = c["meta"]
+        counts["kinds"][meta["kind"]] = counts["kinds"].get(meta["kind"], 0) + 1
+        counts["attrs"][meta["attr"]] = counts["attrs"].get(meta["attr"], 0) + 1
+        if r is None:
+            chk.fail("correspondence", "worker-crash", f"no observation for case {c['cid']} ({meta})",
+                     {"correspondence": "drive/c13.py"})
+            continue
+        rd = r.get("read") or {}
+        if rd.get("exc"):
+            counts["exceptions"][rd["exc"]] = counts["exceptions"].get(rd["exc"], 0) + 1
+        if rd.get("fields"):
+            counts["reported"] += any(f.get("report") for f in rd["fields"])
+            counts["extra_fields"] += any(f.get("extra") for f in rd["fields"])
+        fails = (weak_oracle if meta["kind"] in ("random", "double") else oracle)(c, bases[c["base"]], r)
+        for sig, what in fails:
+            sig = signature(sig, meta)
+            explained.add(c["cid"])
+            counts["failures"][sig] = counts["failures"].get(sig, 0) + 1
+            chk.fail("property", sig, f"{c['base']}: {meta['var']}:{meta['attr']} = {meta['value']!r} "
+                     f"({meta['kind']}): {what}"[:700],
+                     {"input": {"base": c["base"], "edits": c["edits"], "foreign": c["foreign"], "meta": meta},
+                      "observed": {k: rd.get(k) for k in ("exc", "msg", "where", "open_fds")}})
+
+    # ---- correspondence with the model
+    ncorr = 0
+    nfrag = 0
+    if model_ok:
+        lits, owner = [], []
+        for b in use:
+            if in_model_fragment(bases[b]["raw"]):
+                g = g_case(bases[b]["raw"], bases[b]["read"])
+                if g:
+                    lits.append(g)
+                    owner.append(({"base": b, "edits": [], "foreign": False, "meta": {"kind": "valid"}}, bases[b]["read"]))
+        for c in cases:
+            r = rows.get(c["cid"])
+            if r is None or "read" not in r or c["meta"]["kind"] == "semantic":
+                continue
+            raw = apply_edits(bases[c["base"]]["raw"], c)
+            if not in_model_fragment(raw):
+                continue
+            g = g_case(raw, r["read"])
+            if g:
+                lits.append(g)
+                owner.append((c, r["read"]))
+        bad = lib.coq_bad_indices("C13", REQ, "check_case", lits, chunk=60)
+        outside = lib.coq_bad_indices("C13", REQ, "in_fragment", lits, chunk=60)
+        ncorr = len(lits)
+        nfrag = ncorr - len(outside)
+        for i in bad[:40]:
+            c, rd = owner[i]
+            if c.get("cid") in explained:
+                continue   # the property oracle already rejected this case
+            chk.fail("correspondence", "model-vs-impl",
+                     f"model and cfdm.read disagree on {c['base']} with {c['edits']}: exception {rd['exc']}, "
+                     f"fields {[f['ncvar'] for f in (rd['fields'] or [])]}",
+                     {"correspondence": "C13.Run.check_case",
+                      "input": {"base": c["base"], "edits": c["edits"], "foreign": c["foreign"], "meta": c["meta"]},
+                      "observed": {"exc": rd["exc"], "fields": [
+                          {k: f.get(k) for k in ("ncvar", "report", "coordinate_references", "cell_methods")} |
+                          {"constructs": [[x["type"], x["ncvar"], x["bounds"] and x["bounds"][0]] for x in f.get("constructs", [])]}
+                          for f in (rd["fields"] or [])]}})
+
+    distinct = {lib.canon([c["base"], c["edits"], c["foreign"]]) for c in cases if c["meta"]["kind"] != "valid"}
+    chk.coverage.update({
+        "evaluations": len(cases) + len(use),
+        "distinct_nontrivial": len(distinct),
+        "rule": "a case = (generated valid file, edits); non-trivial = at least one reference attribute of the "
+                "file is changed (token -> missing name | name of a variable with foreign dimensions | removed, "
+                "or a malformed / random attribute string, or two such faults); distinct = distinct (base, edits)",
+        "samples": [{"base": c["base"], "edits": c["edits"]} for c in (cases[0], cases[len(cases) // 2], cases[-1])],
+        "bases": use,
+        "single_faults": len(singles), "random_strings": len(randoms), "double_faults": len(doubles),
+        "corpus": len(corpus),
+        "traces_validated_against_impl": nfrag,
+        "disagreements_checked": ncorr,
+        "cases_outside_model_fragment": ncorr - nfrag,
+        "fault_kinds": counts["kinds"], "attributes_faulted": counts["attrs"],
+        "exceptions_seen": counts["exceptions"], "reads_with_report": counts["reported"],
+        "reads_with_orphan_fields": counts["extra_fields"], "oracle_failures_by_signature": counts["failures"],
+        "exhaustive": False,
+        "historical_refutations": "C13/Refuted.v: witnesses against the reader at the pinned commit "
+                                  "(F13a, F13b, F13c, F13f, file left open)",
+    })
+    chk.assumptions += [
+        "model fragment: one ungrouped CF-1.11 file without compression, geometry, UGRID, subsampling or external "
+        "files; DSG-compressed and geometry files are enumerated and judged by the property oracle only",
+        "the report is compared as a set: every (variable, kind, reason) the model expects must be in "
+        "dataset_compliance(); extra entries in the implementation's report are not an error",
+        "coordinates of a grid mapping given without coordinate list come from a standard-name table: not modelled",
+        "cell-method intervals other than plain decimal numbers and bounds formula terms inferred without a "
+        "formula_terms attribute on the bounds variable are outside the model (in_fragment = false)",
+        "descriptors are counted through /proc/self/fd of the reading process, one forked process per file",
+    ]
 
 
 def replay(chk, path):
-    raise NotImplementedError
+    d = json.load(open(path))
+    bases = make_bases(chk)
+    cases = []
+    for x in d.get("cases", []):
+        i = x.get("input")
+        if i and i.get("base") in bases:
+            cases.append({"base": i["base"], "edits": i["edits"], "foreign": i.get("foreign", False), "meta": i["meta"]})
+    rows, crashed = run_cases(chk, cases, bases, nworkers=4)
+    nbad = 0
+    for c in cases:
+        r = rows.get(c["cid"], {})
+        fails = (weak_oracle if c["meta"]["kind"] in ("random", "double") else oracle)(c, bases[c["base"]], r)
+        print(("FAIL " if fails else "ok   ") + f"{c['base']} {c['edits']}")
+        for sig, what in fails:
+            print("     ", signature(sig, c["meta"]), what[:300])
+        nbad += bool(fails)
+    return 1 if nbad else 0
